@@ -132,6 +132,9 @@ def run(ctx):
     from .c10 import rule_limit_errors
     rule_limit_errors(ctx, mir, rid="R11.7")
 
+    # ------------------------------------------------------------------ R11.8 (generic, scoped to this property's anchors)
+    sm.rule_named_plumbing(ctx, mir, "C11", "R11.8", floor=36)
+
     ctx.not_decided += ["the concatenation equality itself for every failure index (run-time positions)", "the two documented exceptions (content being removed; text handler failing on a later chunk of a partly emitted text node)"]
     return ("CFG path rules (dominance / must-pass-through, exhaustive over all paths of the MIR control-flow graphs) on "
             "TransformStream::write/end, Dispatcher::{try_produce_token_from_lexeme,flush_for_bail_out,run_bail_out_handlers,finish}; "
